@@ -329,6 +329,20 @@ def check_import(spec, ctx):
         if kind == "segment":
             ann = ctx.call(spec, "segment_to_annotation", sec.segment_to_annotation, segment(e), rec, **kw)
             check_ann(ann, e, False)
+            # a segment whose two ends come in different units (one in seconds, the other only as a sample index): each end follows
+            # its own rule
+            e_sec, e_smp = dict(e, seconds=True), dict(e, seconds=False)
+            (s_sec, t_sec, _), (s_smp, t_smp, rel) = exp_interval(e_sec), exp_interval(e_smp)
+            for how, seg_m, want in (
+                ("onset in seconds, offset as sample index", crowsetta.Segment(label=e["label"], onset_s=e["onset"], offset_s=None, onset_sample=None, offset_sample=int(e["offset"] * 1000) + 2), (s_sec, t_smp)),
+                ("onset as sample index, offset in seconds", crowsetta.Segment(label=e["label"], onset_s=None, offset_s=e["offset"], onset_sample=int(e["onset"] * 1000) + 1, offset_sample=None), (s_smp, t_sec)),
+            ):
+                if not want[0] < want[1]:
+                    continue
+                am = ctx.call(spec, f"segment_to_annotation({how})", sec.segment_to_annotation, seg_m, rec, **kw)
+                gm = am.sound_event.geometry
+                if gm.type != "TimeInterval" or any(abs(a_ - b_) > 1e-12 * max(1.0, abs(b_)) for a_, b_ in zip(gm.coordinates, want)):
+                    ctx.fail(f"segment import ({how}): geometry {gm.type} {gm.coordinates}, expected TimeInterval {list(want)}", spec, gm.coordinates, list(want), kind="import_geometry")
         else:
             ann = ctx.call(spec, "bbox_to_annotation", sec.bbox_to_annotation, crowsetta.BBox(onset=e["onset"], offset=e["offset"], low_freq=e["low"], high_freq=e["high"], label=e["label"]), rec, **kw)
             check_ann(ann, e, True)
